@@ -1,7 +1,7 @@
 (** Property C11 — the theorems the check counts as obligations.  Nothing but
     statements closed by [exact] and [Print Assumptions]. *)
 From HS Require Import Base.Prelude Base.PyLib C11.Model C11.NodeProofs C11.Election C11.Refute C11.LogProofs C11.LogMatching C11.Progress
-  C11.Completeness C11.Steps C11.Progress2 C11.Liveness Gen.RaftLogGen C11.GenTie.
+  C11.Completeness C11.Steps C11.Progress2 C11.Liveness Gen.RaftLogGen C11.GenTie C11.CommitTie.
 Local Open Scope Z_scope.
 
 (** Each node applies indices 1,2,3,... in order without gaps or repeats, for
@@ -258,3 +258,59 @@ Proof.
         (conj (tie_log_last_index L) (conj (tie_log_last_term L) (tie_log_advance_commit L n))))))).
 Qed.
 Print Assumptions c11_code_log_refines_model.
+
+(** The quorum of the CODE: RaftNode.quorum_size, regenerated from consensus/raft.py on every run, is
+    the model's [quorum] for a node with as many peers, and a strict majority of the cluster (node +
+    peers), so any two quorums intersect — the arithmetic fact election safety, leader completeness and
+    state-machine safety above rest on. *)
+Theorem c11_code_quorum_is_majority : forall (r : RaftNode) (n : node),
+  (length (peers n) = length (RaftNode__peers r) -> RaftNode_quorum_size r = quorum n)
+  /\ (let total := Z.of_nat (length (RaftNode__peers r)) + 1 in
+      2 * RaftNode_quorum_size r > total /\ RaftNode_quorum_size r <= total).
+Proof. intros r n. exact (conj (tie_raft_quorum r n) (raft_quorum_majority r)). Qed.
+Print Assumptions c11_code_quorum_is_majority.
+
+(** The leader's COMMIT RULE of the code: RaftNode._try_advance_commit, regenerated from
+    consensus/raft.py on every run (a descending range loop with continue / break, an inner loop
+    over match_index.values(), Log.get, Log.advance_commit; _apply_committed declared a no-op on
+    the translated fields), does not raise, returns no events, and advances the log's commit index
+    exactly to the index [commit_target] selects ... *)
+Theorem c11_code_commit_rule : forall r : RaftNode,
+  RaftNode__try_advance_commit r
+  = Some (match commit_target (log_abs (RaftNode__log r)) (RaftNode__match_index r) (RaftNode__current_term r)
+                              (RaftNode_quorum_size r) (Log_last_index (RaftNode__log r))
+                              (Z.to_nat (Log_last_index (RaftNode__log r) - Log_commit_index (RaftNode__log r))) with
+          | Some c => with_commit r c
+          | None => r
+          end, []).
+Proof. exact tie_try_advance_commit. Qed.
+Print Assumptions c11_code_commit_rule.
+
+(** ... which is the highest index above the old commit index whose entry is of the CURRENT term
+    and is held by a quorum counting the leader (Raft's commit restriction, the premise of leader
+    completeness) ... *)
+Theorem c11_code_commit_rule_spec : forall lg mi tm q k hi c,
+  commit_target lg mi tm q hi k = Some c ->
+  hi - Z.of_nat k < c <= hi
+  /\ (exists e, log_get lg c = Some e /\ fst e = tm)
+  /\ q <= 1 + count_ge c mi
+  /\ forall c', c < c' <= hi ->
+       ~ ((exists e, log_get lg c' = Some e /\ fst e = tm) /\ q <= 1 + count_ge c' mi).
+Proof. exact commit_target_spec. Qed.
+Print Assumptions c11_code_commit_rule_spec.
+
+(** ... and on the code object of a model node (same log, commit index, term, match indices and
+    cluster size) it leaves exactly the log and commit index of the model's [try_advance_commit] —
+    the step every cluster-level safety theorem above reasons about — and changes nothing else. *)
+Theorem c11_code_commit_rule_refines_model : forall (r : RaftNode) (n : node),
+  log n = log_abs (RaftNode__log r) -> commit n = Log_commit_index (RaftNode__log r) ->
+  term n = RaftNode__current_term r -> match_index n = RaftNode__match_index r ->
+  length (peers n) = length (RaftNode__peers r) ->
+  log_wf (RaftNode__log r) -> 0 <= commit n -> commit n <= zlen (log n) ->
+  exists r', RaftNode__try_advance_commit r = Some (r', [])
+    /\ log_abs (RaftNode__log r') = log (try_advance_commit n)
+    /\ Log_commit_index (RaftNode__log r') = commit (try_advance_commit n)
+    /\ RaftNode__match_index r' = RaftNode__match_index r /\ RaftNode__current_term r' = RaftNode__current_term r
+    /\ RaftNode__peers r' = RaftNode__peers r.
+Proof. exact code_try_advance_commit_refines_model. Qed.
+Print Assumptions c11_code_commit_rule_refines_model.
